@@ -190,9 +190,38 @@ def replay_events(pattern, folders, opts, selected, witness):
             log.append(("w", m))
 
     names = [entries[i]["name"] for i in selected]
-    z = py7zr.SevenZipFile(io.BytesIO(img))
-    z.extract(targets=names, callback=CB(), factory=BytesIOFactory(10 ** 6))
-    z.close()
+    for slow in (False, True):
+        del log[:]
+        verdict = _replay_once(py7zr, img, entries, datas, names, CB, log, slow)
+        if verdict[0]:
+            return verdict
+    return verdict
+
+
+def _replay_once(py7zr, img, entries, datas, names, CB, log, slow):
+    import io
+
+    import py7zr.py7zr as pz
+    from py7zr.io import BytesIOFactory
+
+    saved = (pz.get_memory_limit, pz.time)
+    if slow:
+        # the environment the symbolic clock / chunking stand for: several decode passes per member, >= 1 s between them
+        class Clock:
+            now = 0.0
+
+            def time(self):
+                Clock.now += 1.5
+                return Clock.now
+
+        pz.get_memory_limit = lambda: 3
+        pz.time = Clock()
+    try:
+        z = py7zr.SevenZipFile(io.BytesIO(img))
+        z.extract(targets=names, callback=CB(), factory=BytesIOFactory(10 ** 6))
+        z.close()
+    finally:
+        pz.get_memory_limit, pz.time = saved
     sizes = {}
     di = 0
     for en in entries:
